@@ -211,7 +211,8 @@ def proof_audit(prop):
         # the .vo must be the product of the CURRENT sources: after the build above, `make -q` says
         # whether the target is up to date; it is not when the file itself or anything it depends on
         # failed to compile (a stale .vo of an earlier build must not be mistaken for a proof)
-        rcq, _ = run(["make", "-q", "Props/%s.vo" % pf], cwd=COQ, timeout=300)
+        with Lock(os.path.join(BUILD, "lock")):   # not while another check regenerates the Makefile
+            rcq, _ = run(["make", "-q", "Props/%s.vo" % pf], cwd=COQ, timeout=300)
         if rcq != 0:
             return False, len(thms), 0, details + ["Props/%s.vo is not up to date: the file or one of its dependencies no longer compiles (see build/coq-build.log)" % pf], []
     # the pin file restates every theorem (Check name : statement) and prints its assumptions
